@@ -3,7 +3,7 @@
 # Runs the checks from a private copy of /verif against the given scratch worktree (PYSOMEIP_REPO), so /repo and /verif stay untouched.
 set -u
 id=$1; wt=$2; shift 2
-ve=/tmp/mut/ve_$id
+ve=${MUTDIR:-/tmp/mut}/ve_$id
 rm -rf $ve; mkdir -p $ve
 rsync -a --exclude .git --exclude .work --exclude replays /verif/ $ve/
 cd $ve
@@ -16,6 +16,6 @@ for c in $checks; do
   out=$(PYSOMEIP_REPO=$wt ./check $c --tier quick 2>&1 | grep -E "VIOLATION|KNOWN|^\[" | head -3 | tr '\n' ' ')
   echo "check $c: $out"
 done
-mkdir -p /tmp/mut/replays_$id; cp -r $ve/replays/* /tmp/mut/replays_$id/ 2>/dev/null
+mkdir -p ${MUTDIR:-/tmp/mut}/replays_$id; cp -r $ve/replays/* ${MUTDIR:-/tmp/mut}/replays_$id/ 2>/dev/null
 rm -rf $ve
 echo DONE
